@@ -150,7 +150,7 @@ def sub(cmd, hclass=0, timeout=900):
         return -9, (e.stdout or b'').decode(errors='replace') if isinstance(e.stdout, bytes) else (e.stdout or ''), 'timeout'
 
 
-def replay_file(path, timeout=900):
+def replay_file(path, timeout=3600):
     rep = json.loads(Path(path).read_text())
     rc, out, err = sub([PY, WORKER_MAIN, 'replay', str(path)], rep.get('hclass', 0), timeout)
     sigs = [json.loads(l[len('REPLAY-VIOLATION '):]) for l in out.splitlines()
